@@ -35,7 +35,9 @@ func init() { hx.Register("C17", hx.Stream{Gen: Gen, Run: Run}) }
 const (
 	sigKnownIdleShorter = "C17/rate/idle-interval-shorter-than-block-interval"
 	sigKnownLongFlight  = "C17/notify/later-than-one-block-interval/production-in-flight-longer-than-block-interval"
+	sigKnownRefused     = "C17/lost-wakeup/notification-consumed-by-refused-production"
 	sigLateNotify       = "C17/notify/later-than-one-block-interval/other"
+	sigLateBlockTimer   = "C17/notify/block-timer-production-late"
 	sigOrder            = "C17/model/real-order-outside-admissible-outcomes"
 	sigTiming           = "C17/model/real-loop-outside-admissible-runs"
 
@@ -62,6 +64,9 @@ func mk(mode string, b, i, span int, prods ...pspec) *script {
 }
 
 func pr(k, d int, offs ...int) pspec { return pspec{idx: k, dur: d, offs: offs} }
+
+// prR: the k-th production is refused (publishBlock returns at once without producing, as at the pending limit)
+func prR(k int, offs ...int) pspec { return pspec{idx: k, refused: true, offs: offs} }
 
 func withDD(sc *script, dd int) *script { sc.dd = dd; return sc }
 
@@ -211,6 +216,8 @@ func fixedScenarios() []*script {
 		mk("lazy", 200, 1000, 3400, pr(0, 100, 100)),                // TIE: notification exactly at the end of a production
 		mk("lazy", 200, 1000, 3400, pr(0, 10, 195)),                 // NEAR-TIE: notification 5 ms before a block tick
 		mk("lazy", 240, 840, 3600, pr(0, 10, 600), pr(1, 150, 143)), // NEAR-TIE: notification 7 ms before the end of a production
+		mk("lazy", 200, 1000, 3600, pr(0, 10, 300), prR(1)),         // the block-timer production that serves the notification is refused (known finding: the wake-up is consumed)
+		mk("lazy", 200, 1000, 3800, pr(0, 10, 300), prR(1, 300)),    // … and a second notification after the refusal gets its block
 	}
 }
 
@@ -235,9 +242,13 @@ func randomBase(r *hx.Rng) *script {
 			continue
 		}
 		var d int
+		refused := false
 		switch r.Intn(5) {
 		case 0, 1:
 			d = 5 + r.Intn(20)
+			if r.Chance(20) {
+				d, refused = 0, true
+			}
 		case 2:
 			d = sc.B * (55 + r.Intn(10)) / 100
 		case 3:
@@ -248,7 +259,7 @@ func randomBase(r *hx.Rng) *script {
 				d = 5 + r.Intn(20)
 			}
 		}
-		p := pspec{idx: k, dur: d}
+		p := pspec{idx: k, dur: d, refused: refused}
 		for j := r.Intn(3); j > 0; j-- {
 			if d >= 150 && r.Bool() {
 				p.offs = append(p.offs, 10+r.Intn(d-80)) // during the production
@@ -500,9 +511,9 @@ func evaluate(sc *script, ms measurement, pred prediction) []finding {
 		add(sigTiming, "the real loop's productions match none of the model's admissible runs ("+why+"); model runs: "+strings.Join(rs, " | "))
 	}
 
-	// (1) no lost wake-up (lazy mode): every notification is followed by a production start within
-	//     one block interval after max(notification, end of the production in flight); by the letter of
-	//     the property: within one block interval after the notification
+	// (1) no lost wake-up (lazy mode): every notification is followed by a block (a production that was not
+	//     refused) within one block interval after max(notification, end of the production in flight); by
+	//     the letter of the property: within one block interval after the notification
 	if lazy {
 		for _, nf := range ms.notifs {
 			base, after, inflight := nf.at, -1, false
@@ -516,28 +527,64 @@ func evaluate(sc *script, ms measurement, pred prediction) []finding {
 				}
 			}
 			deadline := base + B + tol
-			if skip || deadline > ms.stopMs-5 {
+			if skip || deadline > ms.stopMs-sep {
 				continue
 			}
-			servedBy := func(dl float64) bool {
-				for k := 0; k < n; k++ {
-					if k > after && starts[k] >= nf.at && starts[k] <= dl {
-						return true
-					}
+			// kn: the first block started after the call; refusedAt: a production started in time but refused
+			kn, refusedAt := -1, -1
+			for k := after + 1; k < n; k++ {
+				if starts[k] < nf.at {
+					continue
 				}
-				return false
+				if sc.refusedOf(k) {
+					if starts[k] <= deadline && refusedAt < 0 {
+						refusedAt = k
+					}
+					continue
+				}
+				kn = k
+				break
 			}
-			switch {
-			case !servedBy(deadline) && inflight:
-				add("C17/lost-wakeup/notification-during-production", fmt.Sprintf("NotifyNewTransactions at %.0f ms, during production %d (ended %.0f ms): no further production started by %.0f ms", nf.at, after, ends[after], deadline))
-			case !servedBy(deadline):
-				add("C17/lost-wakeup/notification-while-waiting", fmt.Sprintf("NotifyNewTransactions at %.0f ms: no production started by %.0f ms", nf.at, deadline))
-			case inflight && !servedBy(nf.at+B+tol):
+			where := "while-waiting"
+			during := ""
+			if inflight {
+				where = "during-production"
+				during = fmt.Sprintf(", during production %d (ended %.0f ms)", after, ends[after])
+			}
+			if kn < 0 || starts[kn] > deadline {
+				// no block in time
+				next := "no production at all until the run ended"
+				if kn >= 0 {
+					next = fmt.Sprintf("the next block is production %d at %.0f ms, started from select case %s", kn, starts[kn], ms.causeOf(true, kn))
+				}
+				switch {
+				case refusedAt >= 0:
+					add(sigKnownRefused, fmt.Sprintf("NotifyNewTransactions at %.0f ms%s: production %d started at %.0f ms but publishBlock refused (returned nil without producing, as at the pending limit); the loop cleared the wake-up, no block by %.0f ms; %s", nf.at, during, refusedAt, starts[refusedAt], deadline, next))
+				case kn >= 0 && ms.causeOf(true, kn) == "B":
+					// the block-timer case did serve it, only late: a wall-clock margin
+					add(sigLateBlockTimer, fmt.Sprintf("NotifyNewTransactions at %.0f ms%s: the block-timer production %d started at %.0f ms, later than %.0f ms", nf.at, during, kn, starts[kn], deadline))
+				default:
+					// nothing, or only the idle timer's next production: the wake-up is lost
+					add("C17/lost-wakeup/notification-"+where, fmt.Sprintf("NotifyNewTransactions at %.0f ms%s: no block started by %.0f ms; %s", nf.at, during, deadline, next))
+				}
+				continue
+			}
+			if inflight && starts[kn] > nf.at+B+tol {
 				// the further block came, but later than one block interval after the call
-				if dur := ends[after] - starts[after]; dur >= B {
-					add(sigKnownLongFlight, fmt.Sprintf("NotifyNewTransactions at %.0f ms, during production %d which lasted %.0f ms (block interval %d ms): the further block started only after its end, later than %.0f ms", nf.at, after, dur, sc.B, nf.at+B+tol))
-				} else {
-					add(sigLateNotify, fmt.Sprintf("NotifyNewTransactions at %.0f ms, during production %d which lasted %.0f ms (shorter than the block interval %d ms): no production started by %.0f ms", nf.at, after, dur, sc.B, nf.at+B+tol))
+				dur, cause := ends[after]-starts[after], ms.causeOf(true, kn)
+				switch {
+				case refusedAt >= 0:
+					// the loop did start a production in time, publishBlock refused it; the block came with a later production
+					add(sigKnownRefused, fmt.Sprintf("NotifyNewTransactions at %.0f ms, during production %d (ended %.0f ms): production %d started at %.0f ms but publishBlock refused (returned nil without producing, as at the pending limit); the first block is production %d at %.0f ms (select case %s), later than %.0f ms", nf.at, after, ends[after], refusedAt, starts[refusedAt], kn, starts[kn], cause, nf.at+B+tol))
+				case dur >= B && starts[kn] <= ends[after]+tol && (cause == "B" || (cause == "L" && dur >= I-2)):
+					// by the letter only: the production in flight outlasted the block interval, the block timer was re-armed
+					// to 1 ms and started the further block right after it (the lazy timer may tie when it was re-armed to 1 ms too)
+					add(sigKnownLongFlight, fmt.Sprintf("NotifyNewTransactions at %.0f ms, during production %d which lasted %.0f ms (block interval %d ms): the further block (production %d, select case %s) started right after its end at %.0f ms, later than %.0f ms", nf.at, after, dur, sc.B, kn, cause, starts[kn], nf.at+B+tol))
+				case cause != "B":
+					// served by the idle timer only
+					add("C17/lost-wakeup/notification-during-production", fmt.Sprintf("NotifyNewTransactions at %.0f ms, during production %d (lasted %.0f ms, ended %.0f ms): the next block is production %d at %.0f ms, started from select case %s, not by the notification", nf.at, after, dur, ends[after], kn, starts[kn], cause))
+				default:
+					add(sigLateNotify, fmt.Sprintf("NotifyNewTransactions at %.0f ms, during production %d which lasted %.0f ms (block interval %d ms): the block-timer production %d started at %.0f ms, later than %.0f ms", nf.at, after, dur, sc.B, kn, starts[kn], nf.at+B+tol))
 				}
 			}
 		}
@@ -631,7 +678,18 @@ func attempt(j *job) att {
 }
 
 // deterministic by-the-letter findings of the unchanged tree: no point in re-running
-func knownSig(sig string) bool { return sig == sigKnownIdleShorter || sig == sigKnownLongFlight }
+func knownSig(sig string) bool {
+	return sig == sigKnownIdleShorter || sig == sigKnownLongFlight || sig == sigKnownRefused
+}
+
+// logical: a signature that is about WHAT happened (an order of events the model does not admit, a
+// notification that no block followed, a panic), not about a wall-clock margin: one counted attempt that
+// shows it is a finding.  Everything else compares a measured time with a threshold and needs
+// showsNeeded counted attempts.
+func logical(sig string) bool {
+	return sig == sigOrder || strings.HasPrefix(sig, "C17/lost-wakeup/") || strings.HasPrefix(sig, "C17/panic/") ||
+		strings.HasPrefix(sig, "C17/loop/") || strings.HasPrefix(sig, "C17/setup/")
+}
 
 // sigs: every signature some attempt showed (except the deterministic known ones), in order of appearance
 func (j *job) sigs() []string {
@@ -646,10 +704,15 @@ func (j *job) sigs() []string {
 	return out
 }
 
-// verdict on one signature: (reported, decided).  Reported when showsNeeded of the counted attempts
-// show it; when the machine is so loaded that fewer than showsNeeded attempts could be counted at
-// all, when every one of the maxAttempts attempts shows it.
+// verdict on one signature: (reported, decided).  A logical signature is reported when ONE counted
+// attempt (noise ≤ noiseCap) shows it; a wall-clock signature when showsNeeded of up to cleanNeeded
+// counted attempts show it.  When the machine is so loaded that not enough attempts could be counted
+// at all (none / fewer than showsNeeded): when every one of the maxAttempts attempts shows it.
 func (j *job) verdict(sig string) (bool, bool) {
+	need := showsNeeded
+	if logical(sig) {
+		need = 1
+	}
 	total, clean, cleanShows, allShow := len(j.atts), 0, 0, true
 	for _, a := range j.atts {
 		s := a.shows(sig) != nil
@@ -663,7 +726,7 @@ func (j *job) verdict(sig string) (bool, bool) {
 			allShow = false
 		}
 	}
-	if cleanShows >= showsNeeded {
+	if cleanShows >= need {
 		return true, true
 	}
 	left := maxAttempts - total
@@ -671,7 +734,7 @@ func (j *job) verdict(sig string) (bool, bool) {
 		left = cleanNeeded - clean
 	}
 	if left <= 0 {
-		return clean < showsNeeded && total >= maxAttempts && allShow, true
+		return clean < need && total >= maxAttempts && allShow, true
 	}
 	if allShow {
 		return false, false // may still be reported by either rule
@@ -679,7 +742,17 @@ func (j *job) verdict(sig string) (bool, bool) {
 	if clean >= 1 && cleanShows == 0 {
 		return false, true // only ever seen in attempts that do not count
 	}
-	return false, cleanShows+left < showsNeeded
+	return false, cleanShows+left < need
+}
+
+// counted: some attempt had noise ≤ noiseCap
+func (j *job) counted() bool {
+	for _, a := range j.atts {
+		if a.clean {
+			return true
+		}
+	}
+	return false
 }
 
 func (j *job) needsMore() bool {
@@ -702,9 +775,11 @@ func (j *job) observation() string {
 		}
 		return j.atts[0].outcome
 	}
-	for i := len(j.atts) - 1; i >= 0; i-- {
-		if j.atts[i].shows(sigOrder) == nil && j.atts[i].outcome != "" {
-			return j.atts[i].outcome
+	for _, pass := range []bool{true, false} { // prefer an attempt that counts
+		for i := len(j.atts) - 1; i >= 0; i-- {
+			if a := j.atts[i]; a.clean == pass && a.shows(sigOrder) == nil && a.outcome != "" {
+				return a.outcome
+			}
 		}
 	}
 	return j.atts[0].outcome
@@ -778,6 +853,9 @@ func Run(c *hx.Ctx) {
 					}
 				}
 				c.St.Hist["probe"] += len(p.probes)
+				if p.refused {
+					c.Hit("production/refused")
+				}
 				if p.dur >= sc.B {
 					c.Hit("production/longer-than-block-interval")
 				}
@@ -788,26 +866,59 @@ func Run(c *hx.Ctx) {
 		}
 	}
 
-	// first attempt of every timing scenario, `parallel` at a time
-	sem := make(chan struct{}, parallel)
-	var wg sync.WaitGroup
+	// the refused productions of the scenarios are played by the recorder (returns nil at once): ask the
+	// real publishBlock whether that is what it does at the pending limit
 	for _, j := range jobs {
-		wg.Add(1)
-		sem <- struct{}{}
-		go func(j *job) {
-			defer wg.Done()
-			defer func() { <-sem }()
-			j.atts = append(j.atts, attempt(j))
-		}(j)
+		refusal := false
+		for _, p := range j.sc.prods {
+			refusal = refusal || p.refused
+		}
+		if !refusal {
+			continue
+		}
+		if ok, detail := refusalProbe(); ok {
+			c.Hit("refusal/real-publishBlock-at-the-pending-limit-returns-nil-without-a-block")
+		} else {
+			c.St.Findings = append(c.St.Findings, hx.Finding{Signature: "C17/model/refusal-is-not-what-publishBlock-does-at-the-pending-limit",
+				What: "the scenarios play a refused production as `publishBlock returns nil at once, no block`; the real publishBlockInternal at the pending limit: " + detail, Scenario: j.scenario, Ops: j.ops})
+		}
+		break
 	}
-	wg.Wait()
-	// a scenario with a finding is re-run alone until cleanNeeded attempts could be counted (noise ≤
-	// noiseCap; at most maxAttempts attempts): a signature is reported when showsNeeded counted
-	// attempts show it
+
+	// rounds of attempts, `parallel` at a time.  A scenario takes part in the next round while it has no
+	// attempt that counts (noise ≤ noiseCap) — an attempt that does not count is not accepted as "nothing
+	// seen" either, its tolerances are wide — or while a signature is undecided; at most maxAttempts rounds.
+	// A logical signature (order of events, lost wake-up) is reported when one counted attempt shows it, a
+	// wall-clock signature when showsNeeded of up to cleanNeeded counted attempts show it.
+	for round := 0; round < maxAttempts; round++ {
+		var todo []*job
+		for _, j := range jobs {
+			if len(j.atts) == 0 || !j.counted() || j.needsMore() {
+				todo = append(todo, j)
+			}
+		}
+		if len(todo) == 0 {
+			break
+		}
+		if round > 0 {
+			c.St.Hist["retry"] += len(todo)
+		}
+		sem := make(chan struct{}, parallel)
+		var wg sync.WaitGroup
+		for _, j := range todo {
+			wg.Add(1)
+			sem <- struct{}{}
+			go func(j *job) {
+				defer wg.Done()
+				defer func() { <-sem }()
+				j.atts = append(j.atts, attempt(j))
+			}(j)
+		}
+		wg.Wait()
+	}
 	for _, j := range jobs {
-		for j.needsMore() {
-			c.Hit("retry")
-			j.atts = append(j.atts, attempt(j))
+		if !j.counted() {
+			c.Hit("scenario/judged-on-noisy-attempts-only")
 		}
 		for i, a := range j.atts {
 			if !a.clean {
@@ -831,7 +942,7 @@ func Run(c *hx.Ctx) {
 				}
 			}
 		}
-		for _, sig := range []string{sigKnownIdleShorter, sigKnownLongFlight} {
+		for _, sig := range []string{sigKnownIdleShorter, sigKnownLongFlight, sigKnownRefused} {
 			report(sig)
 		}
 		for _, sig := range j.sigs() {
